@@ -193,3 +193,70 @@ func c13JSONNumbers(r *Run) {
 		}
 	}
 }
+
+// ---------- C03: chains that have to be evaluated to their last term ----------
+
+func c03FullyEvaluatedChains(r *Run) {
+	for _, n := range []int{2, 17, 64, 127, 128, 129, 130, 131, 200, 257, 513, 1025, 3000} {
+		var eq, ne []string
+		for i := 1; i <= n; i++ {
+			eq = append(eq, fmt.Sprintf("b == %d", i))
+			ne = append(ne, fmt.Sprintf("b != %d", i))
+		}
+		orChain, andChain := strings.Join(eq, " or "), strings.Join(ne, " and ")
+		last, none := map[string]interface{}{"a": 0, "b": n}, map[string]interface{}{"a": 0, "b": 0}
+		for _, t := range []struct {
+			name, e string
+			d       interface{}
+			want    string
+		}{
+			{"or-last-true", orChain, last, "T"}, {"or-all-false", orChain, none, "F"}, {"and-last-false", andChain, last, "F"}, {"and-all-true", andChain, none, "T"},
+			{"not-or", "not ( " + orChain + " )", last, "F"}, {"not-and", "not ( " + andChain + " )", last, "T"}, {"or-then-error", orChain + " or zz.q == 1", none, "E"}, {"and-then-error", andChain + " and zz.q == 1", none, "E"},
+			{"a-or-chain", "a == 1 or " + orChain, last, "T"}, {"a-and-chain", "a != 1 and " + andChain, none, "T"}, {"quantified", "any l as x { " + orChain + " }", map[string]interface{}{"b": n, "l": []int{1}}, "T"},
+		} {
+			o := exprObsOnce(t.e, t.d)
+			r.Evaluations++
+			r.Seen(fmt.Sprintf("full-chain|%s|%d|%s", t.name, n, o))
+			if classOf(o) != t.want {
+				r.Violate("chain-outcome", fmt.Sprintf("%s|%d", t.name, n), map[string]interface{}{"expression": truncate(t.e, 200), "terms": n, "datum": describe(t.d)}, "a chain of "+fmt.Sprint(n)+" terms decided by its last term: expected "+t.want+" got "+o)
+			}
+		}
+	}
+}
+
+// ---------- C10: a returned evaluator is evaluated on every kind of value, with every binding mode and boundary literals ----------
+
+func c10KindsSweep(r *Run) {
+	kinds := append(kindMatrix(), kindSample{"MapNamedKey", map[NStr]int{"a": 1, "b": 2}}, kindSample{"MapNamedKeyStr", map[NStr]string{"a": "x"}}, kindSample{"MapNamedKeyIface", map[NStr]interface{}{"a": 1, "b": "a"}},
+		kindSample{"MapNamedKeyStruct", map[NStr]S1{"a": {A: 1}}}, kindSample{"SliceF32", []float32{1, 2}}, kindSample{"NamedF32", NF32(1)}, kindSample{"IfaceSliceF32", []interface{}{float32(1), 1.5, nil}},
+		kindSample{"MapIfaceKeyStr", map[interface{}]interface{}{"a": 1, "b": 2}}, kindSample{"MapByteKey", map[uint8]string{1: "a"}}, kindSample{"PtrPtrString", func() **string { s := "a"; p := &s; return &p }()},
+		kindSample{"PtrSlicePtr", &[]*int{nil}}, kindSample{"JSONNumber", json.Number("1")}, kindSample{"JSONNumberBad", json.Number("x")})
+	forms := []string{"any x as _, v { v == %s }", "any x as k, v { k == %s or v == %s }", "all x as k { k != %s }", "any x as k, _ { k == %s }", "x == %s", "x != %s", "%s in x", "%s not in x", "x is empty", "x is not empty", "x matches %s", "any x as v { v is empty }"}
+	lits := []string{`1`, `"a"`, `1e39`, `"1e39"`, `"-1e39"`, `1000000000000000000000000000000000000000`, `""`, `"-"`, `"+"`, "``", `"0x"`, `"1e400"`, `"340282356779733661637539395458142568448"`}
+	for _, ks := range kinds {
+		for _, f := range forms {
+			for li, lit := range lits {
+				if !strings.Contains(f, "%s") && li > 0 {
+					continue
+				}
+				e := strings.ReplaceAll(f, "%s", lit)
+				for _, d := range []interface{}{map[string]interface{}{"x": ks.v}, struct{ X interface{} }{ks.v}} {
+					ee := e
+					if _, isMap := d.(map[string]interface{}); !isMap {
+						ee = strings.ReplaceAll(" "+e, " x", " X")[1:]
+					}
+					ev, err := bexpr.CreateEvaluator(ee)
+					if err != nil || ev == nil {
+						continue
+					}
+					o := evalObs(ev, d)
+					r.Evaluations++
+					r.Seen("kinds-sweep|" + f + "|" + ks.name + "|" + lit + "|" + o)
+					if o == "P" {
+						r.Violate("evaluate-panics", "sweep|"+f+"|"+ks.name+"|"+lit, map[string]interface{}{"expression": ee, "datum": describe(d)}, "Evaluate panicked")
+					}
+				}
+			}
+		}
+	}
+}
